@@ -6,7 +6,7 @@ from concurrent.futures import ThreadPoolExecutor
 import common
 
 CORPUS_SEED = 1
-CORPUS_N = 94
+CORPUS_N = 106
 
 HEX_OK = "4f6b28"      # Ok(
 HEX_ERR = "45727228"   # Err(
@@ -410,8 +410,12 @@ class EpisodeMonitor:
 
 def run_episode_proc(args):
     seed, n = args
-    p = subprocess.run([os.path.join(common.BIN, "macro_diff"), "episode", str(seed), str(n)], stdout=subprocess.PIPE,
-                       stderr=subprocess.PIPE, env=common.ENV, text=True)
+    try:
+        p = subprocess.run([os.path.join(common.BIN, "macro_diff"), "episode", str(seed), str(n)], stdout=subprocess.PIPE,
+                           stderr=subprocess.PIPE, env=common.ENV, text=True, timeout=1800)
+    except subprocess.TimeoutExpired as e:
+        out = e.stdout.decode() if isinstance(e.stdout, bytes) else (e.stdout or "")
+        return seed, 124, out, "macro_diff did not finish within 1800 s (an operation of the real code never returned?)"
     return seed, p.returncode, p.stdout, p.stderr[-300:]
 
 
